@@ -43,6 +43,11 @@ func ParseCertificates(certStrs []string) ([]*x509.Certificate, error) {
 }
 
 func ParseTlsKeyPair(cert []byte, key *rsa.PrivateKey) (tls.Certificate, error) {
+	// a key record that was never filled in cannot be encoded: x509.MarshalPKCS1PrivateKey panics on it
+	if key == nil || key.N == nil || key.D == nil || len(key.Primes) < 2 {
+		return tls.Certificate{}, fmt.Errorf("failed to parse key")
+	}
+
 	certPem := pem.EncodeToMemory(
 		&pem.Block{
 			Type:  "CERTIFICATE",
